@@ -362,3 +362,83 @@ def check_C16(tier):
     c.assumptions = ["semantic comparison under TZ=UTC", "hash inequality is never required, only equal => equal hash"]
     c.exhaustive = True
     return c.finish()
+
+
+# =====================================================================================  C13 / C20 / C14
+def trace_check(c, module, trace_module, n, name, what, constants=None, rounds=1, env=None, invariants=("TraceUnfinished",), extra=None):
+    """impl -> spec helper: record a trace with `vh trace <module>` and validate it with TLC"""
+    for i in range(rounds):
+        tp = vh_trace(module, n, "%s%d" % (name, i), seed_=vlib.seed() * 100 + i, env_extra=env)
+        if tp is None:
+            c.violation(what + ": hang", {"seed": vlib.seed() * 100 + i}); continue
+        ex = {"constraint": "TrackProgress"}
+        ex.update(extra or {})
+        ok, tr = validate_trace(trace_module, tp, "trace-%s%d" % (name, i), constants=constants or {}, invariants=list(invariants),
+                                post="TraceRejectedAt", extra=ex)
+        c.add_tlc(tr)
+        nev = sum(1 for _ in open(tp))
+        if ok:
+            c.traces += nev; c.evaluations += nev
+            c.extra[name + "_trace_events_accepted"] = c.extra.get(name + "_trace_events_accepted", 0) + nev
+            if len(c.samples) < 8:
+                c.samples.append({"kind": what, "event": json.loads(open(tp).readline())})
+        else:
+            keep = os.path.join(vlib.REPLAYS, "%s-trace-%s-%d-%d.ndjson" % (c.pid, name, vlib.seed(), i))
+            os.makedirs(vlib.REPLAYS, exist_ok=True); os.replace(tp, keep)
+            c.violation(what + " rejected by %s.tla" % trace_module, {"trace": keep, "tlc": tr.log[max(0, tr.log.find("TRACE-REJECTED") - 5):][:900]})
+
+
+def check_C13(tier):
+    c = Check("C13", tier, "model_checking")
+    t = tier == "thorough"
+    r = tlc("MC_Grammar", cfg_text(constants={"Depth": 3 if t else 2}, invariants=["RoundTripHolds", "Emit"]), "grammar", workers=W, timeout=1500)
+    expect_holds(r, "Grammar round trip (Parse(Min(t)) = t = Parse(Full(t)))"); c.add_tlc(r)
+    rep = vh_replay("grammar", r.replay_path, "grammar")
+    c.add_report(rep, reg("parser vs Grammar.tla (minimal vs full parentheses)", "grammar"))
+    c.rule = ("TLC enumerates expression trees (all operators, <= 2 operator nodes; thorough: 3 nodes over one operator per precedence level), checks on the reference grammar that the "
+              "minimally parenthesised text parses back to the tree, and emits Min(t) and Full(t); the real parser must produce the same statement for Min(t) written with spaces, "
+              "written without any optional whitespace, and for Full(t). Non-trivial = more than one token; distinct by Min(t).")
+    c.assumptions = ["Full(t) is unambiguous for the real parser because every operand is parenthesised"]
+    c.exhaustive = True
+    return c.finish()
+
+
+LEX_ALL = set(range(1, 13))
+
+
+def check_C20(tier):
+    c = Check("C20", tier, "model_checking")
+    t = tier == "thorough"
+    consts = lambda edits, seps, perm, stmts=LEX_ALL: {"MaxEdits": edits, "StmtIndexes": set(stmts), "SepChoice": set(seps), "PermuteClauses": perm}
+    runs = [("single", consts(1, range(1, 10), True)),
+            ("perms", consts(4, [], True, {1, 3, 4, 5})),
+            ("pairs", consts(2, [1, 4, 7, 8] if not t else range(1, 10), False, {1, 6, 8, 9} if not t else LEX_ALL))]
+    for name, k in runs:
+        r = tlc("MC_Lexical", cfg_text(constants=k, invariants=["LexesAsIntended", "Emit"], view="view"), "lexical-" + name, workers=W, timeout=2400)
+        expect_holds(r, "Lexical %s (ideal lexer reads every layout variant as the base token stream)" % name); c.add_tlc(r)
+        rep = vh_replay("lexical", r.replay_path, "lexical-" + name)
+        c.add_report(rep, reg("parser vs Lexical.tla (layout variants)", "lexical"))
+    c.rule = ("TLC applies every single edit (case flip of each keyword / function / aggregate / type name, each of 9 separators incl. comments in every gap, leading / trailing separator, "
+              "semicolon), every clause permutation and every pair of edits to 12 base statements covering the grammar, checks with an ideal lexer that the text still reads as the same tokens, "
+              "and the real parser must return the same statement (Debug form) as for the base layout. Non-trivial = at least one edit; distinct by text.")
+    c.assumptions = ["the Debug form of Statement identifies the statement", "string literal contents are not edited"]
+    c.exhaustive = True
+    return c.finish()
+
+
+def check_C14(tier):
+    c = Check("C14", tier, "exploration")
+    t = tier == "thorough"
+    for name, k in [("mut", {"MaxEdits": 2 if t else 1, "StmtIndexes": LEX_ALL, "GenModes": {q("mut"), q("extra")}}),
+                    ("soup", {"MaxEdits": 3 if t else 2, "StmtIndexes": set(), "GenModes": {q("soup")}})]:
+        r = tlc("ParseTotal", cfg_text(constants=k, invariants=["Emit"]), "parsetotal-" + name, workers=W, timeout=2400)
+        expect_holds(r, "ParseTotal " + name); c.add_tlc(r)
+        rep = vh_replay("parsetotal", r.replay_path, "parsetotal-" + name)
+        c.add_report(rep, reg("parser totality vs ParseTotal.tla", "parsetotal"))
+    trace_check(c, "parse", "Trace_Parse", 20000 if t else 5000, "parse", "random Unicode / mutated statements", rounds=2 if t else 1)
+    c.rule = ("TLC generates: every valid base statement with one (thorough: two) lexeme deleted / duplicated / swapped and every character prefix; all token soups of <= 2 (thorough 3) tokens over a "
+              "51-token vocabulary; 24 malformed-but-plausible statements that must be errors; nesting of ( [ CASE up to depth 64. The harness parses each (parse and parse_into_tree) under "
+              "catch_unwind with overflow checks on, checks the error position lies inside the text and calls extract_near. Random Unicode strings come from a seeded driver and are validated as a trace. "
+              "Non-trivial = the text is rejected with a located error (or is not a mutation); distinct by text.")
+    c.assumptions = ["the model is a generator / classifier here: it fixes the outcome class, not the statement produced", "nesting deeper than 64 is outside the documented bound"]
+    return c.finish()
